@@ -430,6 +430,34 @@ func judgeFamilies(a, b string, sa, sb string) (sig, what string) {
 			}
 		}
 	}
+	// a score is a function of the data AND the options: the objects that were just compared with the
+	// default options, compared again with other options, must score what freshly decoded copies score
+	for _, mod := range []func(o *gedcom.SimilarityOptions){
+		func(o *gedcom.SimilarityOptions) { o.NameToDateRatio = 0 },
+		func(o *gedcom.SimilarityOptions) { o.NameToDateRatio = 1 },
+		func(o *gedcom.SimilarityOptions) { o.MaxYears = 1 },
+	} {
+		oo := gedcom.NewSimilarityOptions()
+		mod(&oo)
+		A3, B3 := build(a, sa), build(b, sb)
+		for i, fa := range A.Families() {
+			for j, fb := range B.Families() {
+				x, y := fa.Similarity(fb, 0, oo), A3.Families()[i].Similarity(B3.Families()[j], 0, oo)
+				if math.Abs(x-y) > symTol {
+					return "family:score-depends-on-earlier-comparisons", fmt.Sprintf("%s family %d vs %d with options %+v: %v on objects that had been compared with the default options before, %v on fresh ones", d, i, j, oo, x, y)
+				}
+			}
+		}
+		for i, ia := range A.Individuals() {
+			for j, ib := range B.Individuals() {
+				x := ia.SurroundingSimilarity(ib, oo, true).WeightedSimilarity()
+				y := A3.Individuals()[i].SurroundingSimilarity(B3.Individuals()[j], oo, true).WeightedSimilarity()
+				if math.Abs(x-y) > symTol {
+					return "surrounding:score-depends-on-earlier-comparisons", fmt.Sprintf("%s individual %d vs %d with options %+v: %v on used objects, %v on fresh ones", d, i, j, oo, x, y)
+				}
+			}
+		}
+	}
 	// weights that differ from each other (the defaults are equal): the weighted score stays in [0,1] and symmetric
 	for _, w := range [][4]float64{{0.5, 0.25, 0.125, 0.125}, {0.125, 0.125, 0.25, 0.5}, {0.1, 0.2, 0.3, 0.4}, {0.4, 0.3, 0.2, 0.1}, {0, 1, 0, 0}, {0, 0, 1, 0}, {0, 0, 0, 1}} {
 		wo := gedcom.NewSimilarityOptions()
